@@ -140,11 +140,11 @@ pub fn check_bytes(tree: &Tree, input: &[u8], l: &mut Local) -> CaseResult {
     crate::runner::clear_pending();
     let r = r.map_err(|p| fail("dyn-total", format!("from_slice_dyn panicked: {}", p), cj()).sig(format!("panic:{}", panic_site(&p))))?;
     // the JSON output repeats field / variant names (object keys), so the schema-dependent factor counts name bytes too
-    let bound = ALLOC_FACTOR * (input.len() + 1) * (tree.node_count() + 1) + 4 * tree.name_bytes() * (input.len() + 1);
+    let bound = ALLOC_FACTOR * (input.len() + 1) * (tree.node_count() + 1) + 4 * tree.name_bytes() * (input.len() + 1) + 16384;
     if m.bytes > bound {
         let f = fail(
             "dyn-total",
-            format!("from_slice_dyn on {} input bytes requested {} bytes (bound {} = {}*(len+1)*(schema nodes+1) + 4*(len+1)*name bytes)", input.len(), m.bytes, bound, ALLOC_FACTOR),
+            format!("from_slice_dyn on {} input bytes requested {} bytes (bound {} = {}*(len+1)*(schema nodes+1) + 4*(len+1)*name bytes + 16384)", input.len(), m.bytes, bound, ALLOC_FACTOR),
             cj(),
         );
         return Err(if has_zw_seq(tree) { f.sig(SIG_ZW_SEQ) } else { f });
@@ -374,7 +374,7 @@ pub fn run(ctx: &Ctx) {
          Schema) x bytes {random, valid encodings, single-byte corruptions, truncations, length varints replaced by moderate claims \
          2^8..2^20 and huge ones} and x JSON {type-correct from generated values, near-miss single-node edits (wrong JSON type, \
          out-of-range number, missing/extra/renamed field, wrong arity), unrelated random JSON}. oracle: no panic from either \
-         function; from_slice_dyn requests <= 512*(len+1)*(schema nodes+1) + 4*(len+1)*(bytes of names in the schema) bytes; whenever to_stdvec_dyn(s,j) == Ok(b): \
+         function; from_slice_dyn requests <= 512*(len+1)*(schema nodes+1) + 4*(len+1)*(bytes of names in the schema) + 16384 bytes; whenever to_stdvec_dyn(s,j) == Ok(b): \
          from_slice_dyn(s,b) == Ok(j') and to_stdvec_dyn(s,j') == Ok(b). non-trivial = rejected input, accepted input with a \
          container, or near-miss JSON; distinct = hash(tree, input). the known findings (Seq of zero-width elements; Option of a \
          payload whose JSON is null; structs with duplicate field names) are excluded by construction and counted under excluded_known",
